@@ -54,7 +54,9 @@ CHECKS = {
             "by the harness; each extension-bound command/tag/match type must have been "
             "preceded by a require naming it. Removal direction: for valid scripts (accepted "
             "by parser and reference model) each needed extension is removed and the exact "
-            "message naming the first missing extension in script order is demanded.",
+            "message naming the first missing extension in script order is demanded. A third "
+            "of the walks and half of the removal cases run on a Parser object that has "
+            "accepted a script loading those extensions right before.",
             "Trusted: frozen extension table in rv/rsieve.py; first-missing extension computed "
             "by the reference judge."),
     "C18": ("exploration", "DESIGN.md §2 C18",
@@ -172,8 +174,12 @@ CHECKS = {
             "Every initial state (old/new absent/present/active, other scripts, old==new) x body "
             "x fault (each of the 5 steps answered NO/BYE/silence/EOF; thorough: pairs) is run "
             "through the real emulated renamescript; the store before and after must satisfy the "
-            "conservation law and a True result must imply the complete rename.",
-            "R-MS enforces RFC rules; names quoted, bodies literal."),
+            "conservation law and a True result must imply the complete rename. Plus drawn "
+            "cases: names and bodies from broad character classes, up to three fault points, a "
+            "fault at the second or third occurrence of a verb, names listed quoted or literal.",
+            "R-MS enforces RFC rules; bodies literal; problems that vanish when the same case "
+            "lists its names as quoted strings are attributed to C17's recorded listing findings "
+            "(counterfactual run) and reported as KNOWN-FINDING."),
     "C15": ("exploration", "DESIGN.md §4 C15",
             "runtime monitoring: history checked step by step against an executable reference "
             "model of the server (result of each call, server-side protocol-violation log, "
@@ -182,7 +188,9 @@ CHECKS = {
             "response codes, permitted NO outcomes and recv() segmentation; after each step the "
             "client's result is compared with the model's answer to that command.",
             "Data equality under arbitrary name/body encodings is C17's; sessions there only "
-            "check success/failure, violation log and quiescence."),
+            "check success/failure, violation log and quiescence. In the stratum where data is "
+            "compared, names are quoted strings, except that inactive names not starting with a "
+            "double quote are sent as literals 30 % of the time."),
     "C16": ("exploration", "DESIGN.md §4 C16",
             "runtime monitoring: SASL exchanges recorded by the reference server are decoded "
             "(PLAIN, LOGIN, OAUTHBEARER, DIGEST-MD5 with response recomputation) and compared "
